@@ -342,7 +342,74 @@ func c19Families(thorough bool) []*engine.IFamily {
 			}
 			return r
 		}}
-	return []*engine.IFamily{scaled, grid, dur, texts, inst, periodF}
+	reuse := &engine.IFamily{Name: "time-period-reused-destination", Chunks: 1,
+		Rule: "every ordered pair (a, b) of 9 period texts (relative/absolute start and end, each present or absent, empty object) decoded one after the other into the SAME destination - a variable, and the non-nil timePeriod pointer of a limit and of a setpoint - and read 0 s and 61 s later: must read exactly like b decoded into a fresh destination; non-trivial: a != b",
+		Run: func(chunk int) engine.IResult {
+			var r engine.IResult
+			texts := []string{`{"endTime":"PT1M"}`, `{"endTime":"PT2H"}`, `{"startTime":"PT5S","endTime":"PT1M"}`, `{"startTime":"PT0S","endTime":"P1D"}`,
+				`{"startTime":"2024-03-01T12:00:00Z","endTime":"2024-03-01T13:00:00Z"}`, `{"endTime":"2024-03-01T13:00:00Z"}`, `{"startTime":"PT5S"}`, `{"startTime":"2024-03-01T12:00:30Z"}`, `{}`}
+			t1 := time.Date(2024, 3, 1, 12, 0, 0, 0, time.UTC)
+			defer func() { vtime.StaticNow = nil }()
+			read := func(tp *model.TimePeriodType, now *time.Time) string {
+				var out []string
+				for _, delta := range []time.Duration{0, 61 * time.Second} {
+					*now = t1.Add(delta)
+					if tp == nil {
+						out = append(out, "nil")
+						continue
+					}
+					d, e := tp.GetDuration()
+					js, e2 := json.Marshal(tp)
+					out = append(out, fmt.Sprintf("%v/%v/%s/%v", d, e != nil, js, e2 != nil))
+				}
+				return strings.Join(out, " ; ")
+			}
+			for _, dest := range []string{"variable", "limit.timePeriod", "setpoint.timePeriod"} {
+				for _, a := range texts {
+					for _, b := range texts {
+						r.Evals++
+						if a != b {
+							r.Nontrivial++
+						}
+						now := t1
+						vtime.StaticNow = &now
+						var used, fresh string
+						var errs []error
+						switch dest {
+						case "variable":
+							var v, f model.TimePeriodType
+							errs = append(errs, json.Unmarshal([]byte(a), &v), json.Unmarshal([]byte(b), &v), json.Unmarshal([]byte(b), &f))
+							used, fresh = read(&v, &now), read(&f, &now)
+						case "limit.timePeriod":
+							var v, f model.LoadControlLimitDataType
+							errs = append(errs, json.Unmarshal([]byte(`{"timePeriod":`+a+`}`), &v), json.Unmarshal([]byte(`{"timePeriod":`+b+`}`), &v), json.Unmarshal([]byte(`{"timePeriod":`+b+`}`), &f))
+							used, fresh = read(v.TimePeriod, &now), read(f.TimePeriod, &now)
+						default:
+							var v, f model.SetpointDataType
+							errs = append(errs, json.Unmarshal([]byte(`{"timePeriod":`+a+`}`), &v), json.Unmarshal([]byte(`{"timePeriod":`+b+`}`), &v), json.Unmarshal([]byte(`{"timePeriod":`+b+`}`), &f))
+							used, fresh = read(v.TimePeriod, &now), read(f.TimePeriod, &now)
+						}
+						for _, e := range errs {
+							if e != nil {
+								used += " error " + e.Error()
+							}
+						}
+						if used != fresh {
+							r.NFails++
+							if len(r.Fails) < 2 {
+								r.Fails = append(r.Fails, engine.IFail{Key: "a period decoded into a destination that held another period does not read like the same text decoded into a fresh destination | destination=" + dest,
+									Msg: fmt.Sprintf("first %s then %s: reads %s, fresh reads %s", a, b, used, fresh), Input: dest + " " + a + " " + b})
+							}
+						}
+						if len(r.Samples) < 1 && a != b {
+							r.Samples = append(r.Samples, fmt.Sprintf("%s after %s -> %s", b, a, used))
+						}
+					}
+				}
+			}
+			return r
+		}}
+	return []*engine.IFamily{scaled, grid, dur, texts, inst, periodF, reuse}
 }
 
 func abs(k int) int {
